@@ -124,7 +124,13 @@ def outcome(fn):
 def mk_parser(job):
     from pytableaux.lang import Parser, Predicate, Predicates
     preds = [tuple(p) for p in job.get('preds', [])]
-    if job.get('frozen') or not preds:
+    if job.get('frozen_from_store') is not None:
+        # frozen from a live Predicates object that is mutated afterwards: the frozen store must not follow it
+        src = Predicates(preds)
+        store = Predicates.Frozen(src) if job.get('frozen_how') == 'class' else src.frozen()
+        for q in job['frozen_from_store']:
+            src.add(tuple(q))
+    elif job.get('frozen') or not preds:
         store = Predicates.Frozen(preds) if job.get('frozen') else Predicates(preds)
     else:
         # "predicate-store contents", not their history: the same declarations reached by construction,
